@@ -61,6 +61,7 @@ package storage
 //@   ensures[cells.kept] forall i int :: 0 <= i && i < old(cnt(n)) ==> lc(n,i) == old(lc(n,i))
 //@   ensures[cell.new] fresh(lc(n, old(cnt(n)))) && lc(n, old(cnt(n))).key == key && lc(n, old(cnt(n))).valueBytes == value
 //@   ensures[cell.new.size] lc(n, old(cnt(n))).valueSize == len(value) && !lc(n, old(cnt(n))).deleted
+//@   ensures[arrays] (base(n.offsets) == old(base(n.offsets)) || fresh(n.offsets)) && (base(n.leafCells) == old(base(n.leafCells)) || fresh(n.leafCells))
 
 //@ func (n *btreeNode) appendInternalCell(key uint32, fileOffset uint64) error
 //@   props C01 C11
@@ -69,6 +70,7 @@ package storage
 //@   ensures result == nil && cnt(n) == old(cnt(n)) + 1 && compact(n) && slotsOK(n)
 //@   ensures[cells.kept] forall i int :: 0 <= i && i < old(cnt(n)) ==> ic(n,i) == old(ic(n,i))
 //@   ensures[cell.new] fresh(ic(n, old(cnt(n)))) && ic(n, old(cnt(n))).key == key && ic(n, old(cnt(n))).fileOffset == fileOffset
+//@   ensures[arrays] (base(n.offsets) == old(base(n.offsets)) || fresh(n.offsets)) && (base(n.internalCells) == old(base(n.internalCells)) || fresh(n.internalCells))
 
 //@ func (n *btreeNode) insertLeafCell(offset uint32, key uint32, value []byte) error
 //@   props C01 C08 C11 C14
@@ -84,3 +86,80 @@ package storage
 //@   ensures[ok.new] result == nil ==> fresh(lc(n,offset)) && lc(n,offset).key == key && lc(n,offset).valueBytes == value &&
 //@              lc(n,offset).valueSize == len(value) && !lc(n,offset).deleted
 //@   ensures[ok.compact] result == nil && old(compact(n)) && offset == old(cnt(n)) ==> compact(n)
+
+//@ func (n *btreeNode) setRightMostKey(fileOffset uint64)
+//@   props C01 C11
+//@   modifies n.rightOffset
+//@   ensures n.rightOffset == fileOffset
+
+//@ func (n *btreeNode) markDirty(lsn uint64)
+//@   props C02 C04 C16
+//@   modifies n.lastLSN, n.dirty
+//@   ensures n.lastLSN == lsn && n.dirty
+
+//@ func (n *btreeNode) markClean()
+//@   props C04 C16
+//@   modifies n.dirty
+//@   ensures !n.dirty
+
+//@ func (n *btreeNode) isDirty() bool
+//@   props C04 C15 C16
+//@   pure
+//@   ensures result == n.dirty
+
+//@ func (n *btreeNode) getFileOffset() uint64
+//@   pure
+//@   ensures result == n.fileOffset
+
+//@ func (n *btreeNode) setFileOffset(offset uint64)
+//@   modifies n.fileOffset
+//@   ensures n.fileOffset == offset
+
+//@ func (n *btreeNode) getLastLSN() uint64
+//@   pure
+//@   ensures result == n.lastLSN
+
+//@ spec pred sizesOK(n *btreeNode) { forall i int :: 0 <= i && i < cnt(n) ==> lc(n,i).valueSize == len(lc(n,i).valueBytes) }
+
+//@ func (n *btreeNode) split(newPg *btreeNode) (uint32, error)
+//@   props C01 C11
+//@   requires newPg != nil && newPg != n && newPg.offsets == nil && newPg.leafCells == nil && newPg.internalCells == nil
+//@   requires newPg.isLeaf == n.isLeaf && slotsOK(n) && cnt(n) >= 1 && cnt(n) < 65535
+//@   requires n.isLeaf ==> sizesOK(n)
+//@   requires !n.isLeaf ==> identity(n)
+//@   modifies n.offsets, n.rightOffset, newPg.offsets, newPg.leafCells, newPg.internalCells, newPg.rightOffset
+//@   ensures[ok] err == nil
+//@   ensures[counts] cnt(n) == old(cnt(n))/2 && slotsOK(n) && slotsOK(newPg) && compact(newPg)
+//@   ensures[leaf.count] n.isLeaf ==> cnt(newPg) == old(cnt(n)) - old(cnt(n))/2
+//@   ensures[leaf.kept] n.isLeaf ==> forall i int :: 0 <= i && i < cnt(n) ==> lc(n,i) == old(lc(n,i))
+//@   ensures[leaf.content; C01 C11] n.isLeaf ==> forall j int :: 0 <= j && j < cnt(newPg) ==>
+//@              lc(newPg,j).key == old(lc(n, cnt(n)/2 + j).key) &&
+//@              lc(newPg,j).valueBytes == old(lc(n, cnt(n)/2 + j).valueBytes) &&
+//@              lc(newPg,j).valueSize == old(lc(n, cnt(n)/2 + j).valueSize)
+//@   ensures[leaf.deleted; C01] n.isLeaf ==> forall j int :: 0 <= j && j < cnt(newPg) ==>
+//@              lc(newPg,j).deleted == old(lc(n, cnt(n)/2 + j).deleted)
+//@   ensures[leaf.sep; C11] n.isLeaf ==> result0 == old(lc(n, cnt(n)/2).key)
+//@   ensures[int.count] !n.isLeaf ==> cnt(newPg) == old(cnt(n)) - old(cnt(n))/2 - 1
+//@   ensures[int.kept] !n.isLeaf ==> forall i int :: 0 <= i && i < cnt(n) ==> ic(n,i) == old(ic(n,i))
+//@   ensures[int.content; C01 C11] !n.isLeaf ==> forall j int :: 0 <= j && j < cnt(newPg) ==>
+//@              ic(newPg,j).key == old(ic(n, cnt(n)/2 + 1 + j).key) && ic(newPg,j).fileOffset == old(ic(n, cnt(n)/2 + 1 + j).fileOffset)
+//@   ensures[int.sep; C11] !n.isLeaf ==> result0 == old(ic(n, cnt(n)/2).key) && n.rightOffset == old(ic(n, cnt(n)/2).fileOffset)
+//@   ensures[int.right; C11] !n.isLeaf ==> newPg.rightOffset == old(n.rightOffset)
+//@   ensures[leaf.right] n.isLeaf ==> n.rightOffset == old(n.rightOffset) && newPg.rightOffset == old(newPg.rightOffset)
+//@   loop 1 invariant mid <= i && i <= cnt(n) && cnt(newPg) == i - mid && compact(newPg) && slotsOK(newPg) && newPg.isLeaf && n.isLeaf
+//@   loop 1 invariant n.offsets == old(n.offsets) && n.leafCells == old(n.leafCells) && newPg.internalCells == nil
+//@   loop 1 invariant (newPg.offsets == nil || fresh(newPg.offsets)) && (newPg.leafCells == nil || fresh(newPg.leafCells))
+//@   loop 1 invariant forall k int :: 0 <= k && k < cnt(n) ==> n.offsets[k] == old(n.offsets[k]) && lc(n,k) == old(lc(n,k))
+//@   loop 1 invariant forall j int :: 0 <= j && j < i - mid ==> lc(newPg,j).key == old(lc(n, mid + j).key) &&
+//@              lc(newPg,j).valueBytes == old(lc(n, mid + j).valueBytes) && lc(newPg,j).valueSize == old(lc(n, mid + j).valueSize) &&
+//@              lc(newPg,j).deleted == old(lc(n, mid + j).deleted) && allocated(lc(newPg,j))
+//@   loop 1 invariant n.rightOffset == old(n.rightOffset) && newPg.rightOffset == old(newPg.rightOffset)
+//@   loop 1 decreases cnt(n) - i
+//@   loop 2 invariant mid + 1 <= i && i <= cnt(n) && cnt(newPg) == i - mid - 1 && compact(newPg) && slotsOK(newPg) && !newPg.isLeaf && !n.isLeaf
+//@   loop 2 invariant n.offsets == old(n.offsets) && n.internalCells == old(n.internalCells) && newPg.leafCells == nil
+//@   loop 2 invariant (newPg.offsets == nil || fresh(newPg.offsets)) && (newPg.internalCells == nil || fresh(newPg.internalCells))
+//@   loop 2 invariant forall k int :: 0 <= k && k < cnt(n) ==> n.offsets[k] == old(n.offsets[k]) && ic(n,k) == old(ic(n,k))
+//@   loop 2 invariant forall j int :: 0 <= j && j < i - mid - 1 ==> ic(newPg,j).key == old(ic(n, mid + 1 + j).key) &&
+//@              ic(newPg,j).fileOffset == old(ic(n, mid + 1 + j).fileOffset)
+//@   loop 2 invariant n.rightOffset == old(n.rightOffset) && newPg.rightOffset == old(newPg.rightOffset)
+//@   loop 2 decreases cnt(n) - i
